@@ -308,7 +308,11 @@ def redeclare_scenario(spec, prop, R, batch, stats):
             return
         cls, fname = target
         lo = R.randint(100, 120)
-        cls.__init__.__annotations__[fname] = Annotated[int, IntRange(lo, lo + 3)]
+        if prop == "C01":
+            from geneticengine.grammar.metahandlers.vars import VarRange
+            cls.__init__.__annotations__[fname] = Annotated[str, VarRange(["p", "q"])]    # the field changes its TYPE
+        else:
+            cls.__init__.__annotations__[fname] = Annotated[int, IntRange(lo, lo + 3)]
         ctx = Ctx(b, prop, meta=(prop == "C11"))                                   # extract again: new declaration
         workload(ctx, R, ctx.mind + 1, ["grow", "pt"], ["tree", "ge", "sge", "dsge"], 2, 2)
         batch.trace("redeclared/" + spec["id"], ctx.events,
